@@ -119,3 +119,36 @@ Definition dec_top_int (bs : bytes) : result (Z * bytes) :=
   if gintTag t then decode_int_tag t r
   else if glongTag t then decode_long_tag t r
   else Err ECodec.
+
+(* ---- double (double.go): encodeDouble is the generated GoLeaf.gencodeDouble ---- *)
+From GH Require Import Base.FloatBits Base.TimeSem.
+
+Definition decode_double_tag (tag : Z) (r : bytes) : result (Z * bytes) :=
+  if tag =? g_doubleZeroTag then Ok (of_int64 0, r)
+  else if tag =? g_doubleOneTag then Ok (of_int64 1, r)
+  else if tag =? g_doubleOneByteTag then
+    do (bt, r') <- read_tag r ;; Ok (of_int64 (swrap 8 bt), r')
+  else if tag =? g_doubleTwoByteTag then
+    do (bf, r') <- read_full 2 r ;; Ok (of_int64 (swrap 16 (be_val bf)), r')
+  else if tag =? g_doubleFourByteTag then
+    do (bf, r') <- read_full 4 r ;; Ok (widen (be_val bf), r')
+  else if tag =? g_doubleLongStartTag then
+    do (bf, r') <- read_full 8 r ;; Ok (be_val bf, r')
+  else Err ECodec.
+Definition decode_double (bs : bytes) : result (Z * bytes) :=
+  do (t, r) <- read_tag bs ;; decode_double_tag t r.
+
+(* a float32 struct field: WriteData widens it, readField narrows the decoded double (reflect.SetFloat) *)
+Definition enc_f32 (b32 : Z) : result bytes := gencodeDouble (widen b32).
+Definition dec_f32_field (bs : bytes) : result (Z * bytes) :=
+  do (d, r) <- decode_double bs ;; Ok (narrow d, r).
+
+(* ---- date (date.go): encodeDate is the generated GoLeaf.gencodeDate ---- *)
+Definition decode_date_tag (tag : Z) (r : bytes) : result ((Z * Z) * bytes) :=
+  if tag =? g_dateMillisStartTag then
+    do (bf, r') <- read_full 8 r ;; Ok (unix_milli (swrap 64 (be_val bf)), r')
+  else if tag =? g_dateSecondStartTag then
+    do (bf, r') <- read_full 4 r ;; Ok ((swrap 32 (be_val bf), 0), r')
+  else Err ECodec.
+Definition decode_date (bs : bytes) : result ((Z * Z) * bytes) :=
+  do (t, r) <- read_tag bs ;; decode_date_tag t r.
